@@ -28,8 +28,26 @@ def dec2(ll, ncols):
 
 
 # ---------------------------------------------------------------------------------------------- tree utilities
-BIN = ("add", "sub", "mul", "vdot")
+BIN = ("add", "sub", "mul", "vdot", "bil", "varcov")
 UN = ("scale", "addc", "mulc", "ptw", "lin", "sum", "getKey", "putKey", "sqnorm", "quad", "gauss")
+
+
+def bil_info(t):
+    """two-operand einsum `ss` on operand shapes -> (m, na, nb, T[m, na, nb], output shape); operands are flattened"""
+    sa, sb = [tuple(x) for x in t["shapes"]]
+    na, nb = int(np.prod(sa)), int(np.prod(sb))
+    out0 = np.einsum(t["ss"], np.zeros(sa), np.zeros(sb))
+    oshape = out0.shape
+    m = int(np.prod(oshape)) if len(oshape) else 1
+    T = np.zeros((m, na, nb))
+    for i in range(na):
+        ea = np.zeros(na)
+        ea[i] = 1
+        for j in range(nb):
+            eb = np.zeros(nb)
+            eb[j] = 1
+            T[:, i, j] = np.einsum(t["ss"], ea.reshape(sa), eb.reshape(sb)).ravel()
+    return m, na, nb, T, oshape
 
 
 def keys_read(t):
@@ -52,6 +70,9 @@ def keys_read(t):
 def expand(t):
     """`pinsert` = `F @ G` where G's target differs from F's domain (Operator.partial_insert):
     (F + id on the keys of G's target that F does not read) o (G + id on the keys F reads that G does not produce)"""
+    if t["t"] == "integrate":
+        # IntegrationOperator: weight with the volume element, then sum
+        return dict(t="sum", a=dict(t="scale", c=t["vol"], a=t["a"]))
     if t["t"] != "pinsert":
         return t
     k1, k2 = keys_read(t["f"]), dom(t["g"])
@@ -109,8 +130,11 @@ def dom(t):
         return dom(t["a"])
     if k == "lin":
         return {"": t["m"]}
-    if k in ("sum", "vdot", "sqnorm", "quad", "gauss"):
+    if k in ("sum", "vdot", "sqnorm", "quad", "gauss", "varcov"):
         return {"": 0}          # size 0 = the scalar domain (one entry)
+    if k == "bil":
+        m, _, _, _, oshape = bil_info(t)
+        return {"": m if len(oshape) else 0}
     if k == "getKey":
         return {"": dom(t["a"])[t["k"]]}
     if k == "putKey":
@@ -137,6 +161,10 @@ def fl(a):
 def ship(t):
     """tree with python floats -> tree with bit patterns (what the Lean driver reads)"""
     t = expand(t)
+    if t["t"] == "bil":
+        m, na, nb, T, _ = bil_info(t)
+        return dict(t="bil", m=m, na=na, nb=nb, T=[[[f2b(x) for x in row] for row in mat] for mat in T],
+                    a=ship(t["a"]), b=ship(t["b"]))
     r = {}
     for k, v in t.items():
         if k in ("a", "b", "f", "g") and isinstance(v, dict):
@@ -254,6 +282,28 @@ class Builder:
             return self.build(t["a"])[t["k"]]
         if k == "putKey":
             return self.build(t["a"]).ducktape_left(t["k"])
+        if k == "integrate":
+            return self.build(t["a"]).integrate()
+        if k == "bil":
+            m, na, nb, T, oshape = bil_info(t)
+            sa, sb = [tuple(x) for x in t["shapes"]]
+            da = ift.DomainTuple.make(tuple(ift.UnstructuredDomain(n) for n in sa))
+            db = ift.DomainTuple.make(tuple(ift.UnstructuredDomain(n) for n in sb))
+            A = self.build(t["a"]).ducktape_left(da).ducktape_left("e0")
+            B = self.build(t["b"]).ducktape_left(db).ducktape_left("e1")
+            mle = ift.MultiLinearEinsum(ift.MultiDomain.make({"e0": da, "e1": db}), t["ss"], key_order=("e0", "e1"))
+            op = mle @ (A + B)
+            if len(oshape) != 0:
+                op = op.ducktape_left(self.sp(m))
+            return op
+        if k == "varcov":
+            n = t["n"]
+            a, b = t["a"], t["b"]
+            if (not self.single and a["t"] == "var" and b["t"] == "var" and a["k"] != b["k"]):
+                # the energy directly on two input keys: its own simplification rule applies (C04)
+                return ift.VariableCovarianceGaussianEnergy(self.sp(n), a["k"], b["k"], np.float64)
+            E = ift.VariableCovarianceGaussianEnergy(self.sp(n), "r_", "i_", np.float64)
+            return E @ (self.build(a).ducktape_left("r_") + self.build(b).ducktape_left("i_"))
         if k == "pinsert":
             inner = Builder(keys_read(t["f"]), self.space)
             F, G = inner.build(t["f"]), self.build(t["g"])
@@ -437,6 +487,14 @@ def _pyeval(t, env):
     if k == "mul":
         a, b = pyeval(t["a"], env), pyeval(t["b"], env)
         return {key: a[key] * b[key] for key in a}
+    if k == "bil":
+        a, b = pyeval(t["a"], env)[""], pyeval(t["b"], env)[""]
+        sa, sb = [tuple(x) for x in t["shapes"]]
+        return {"": np.atleast_1d(np.einsum(t["ss"], a.reshape(sa), b.reshape(sb))).ravel()}
+    if k == "varcov":
+        a, b = pyeval(t["a"], env)[""], pyeval(t["b"], env)[""]
+        with np.errstate(all="ignore"):
+            return {"": np.array([0.5 * (np.sum(a * a * b) - np.sum(np.log(b)))])}
     a = pyeval(t["a"], env) if "a" in t else None
     if k == "scale":
         return {key: t["c"] * v for key, v in a.items()}
@@ -571,6 +629,17 @@ class Gen:
                 out = pyeval(t, env)[""]
                 if _ok_all(out) and np.all(np.abs(pyeval(t["a"], env)[""]) < 4):
                     return t
+        if c < 0.655 and depth >= 2:
+            # a two-operand einsum (MultiLinearEinsum / outer) with an output of size n
+            k2 = r.choice([1, 2, 3])
+            pats = [("i,i->i", [[n], [n]]), ("i,ij->j", [[k2], [k2, n]]), ("ij,j->i", [[n, k2], [k2]]),
+                    ("ij,ij->j", [[k2, n], [k2, n]]), ("ij,jk->ik", [[n, k2], [k2, 1]])]
+            for p_ in range(1, n + 1):
+                if n % p_ == 0:
+                    pats.append(("i,j->ij", [[p_], [n // p_]]))
+            ss, shapes = r.choice(pats)
+            return dict(t="bil", ss=ss, shapes=shapes, a=self.single(int(np.prod(shapes[0])), env, depth - 2),
+                        b=self.single(int(np.prod(shapes[1])), env, depth - 2))
         if c < 0.66:
             return dict(t="scale", c=r.choice([-2.0, -1.0, -1.0, -0.5, 0.25, 0.5, 1.5, 2.0, 3.0]), a=self.single(n, env, depth - 1))
         if c < 0.72:
@@ -626,6 +695,10 @@ class Gen:
             t = self.ptw_node(a, env)
             return t if t is not None else a
         c = r.random()
+        if c < 0.08:
+            return dict(t="bil", ss="i,i->", shapes=[[n], [n]], a=self.single(n, env, depth - 1), b=self.single(n, env, depth - 1))
+        if c < 0.2 and getattr(self, "space", "U") == "R" and r.random() < 0.6:
+            return dict(t="integrate", vol=1.0 / n, a=self.single(n, env, depth - 1))
         if c < 0.2:
             return dict(t="sum", a=self.single(n, env, depth - 1))
         if c < 0.4:
@@ -634,7 +707,32 @@ class Gen:
             return dict(t="sqnorm", a=self.single(n, env, depth - 1))
         if c < 0.7:
             return dict(t="quad", d=self.vec(n, 0.25, 2), a=self.single(n, env, depth - 1))
+        if c < 0.82:
+            v = self.varcov(env, depth - 1)
+            if v is not None:
+                return v
         return dict(t="gauss", data=self.vec(n), icov=self.vec(n, 0.25, 2), a=self.single(n, env, depth - 1))
+
+    def varcov(self, env, depth):
+        """VariableCovarianceGaussianEnergy on (residual, inverse covariance > 0)"""
+        r = self.rng
+        if len(env) >= 2 and r.random() < 0.5:
+            # directly on two input keys of equal size (inverse-covariance key must be positive)
+            ks = [k for k in sorted(env)]
+            for ka in ks:
+                for kb in ks:
+                    if ka != kb and len(env[ka]) == len(env[kb]) and np.all(env[kb] > 0.2):
+                        return dict(t="varcov", n=len(env[ka]), a=dict(t="var", k=ka, n=len(env[ka])),
+                                    b=dict(t="var", k=kb, n=len(env[kb])))
+        n = r.choice([1, 2, 3])
+        a = self.single(n, env, depth - 1)
+        for _ in range(6):
+            b0 = self.single(n, env, depth - 1)
+            b = dict(t="ptw", f="exp", p=[], a=b0)
+            vb = pyeval(b0, env)[""]
+            if np.all(np.abs(vb) < 2.5):
+                return dict(t="varcov", n=n, a=a, b=b)
+        return None
 
     def case(self, max_nodes=16):
         r = self.rng
@@ -644,12 +742,21 @@ class Gen:
             else:
                 ks = r.sample(["a", "b", "c"], r.choice([2, 3]))
                 env = {k: np.array(self.vec(r.choice([1, 2, 3]))) for k in ks}
+                if r.random() < 0.4:
+                    # a positive key of the same size as another one (inverse covariances, arguments of log/sqrt)
+                    k1, k2 = r.sample(ks, 2)
+                    env[k2] = np.array(self.vec(len(env[k1]), 0.25, 3.0))
             depth = r.choice([2, 3, 3, 4, 4, 5])
+            self.space = r.choice(["U", "U", "R"])
             c = r.random()
             wm = r.random() < 0.6
             if c < 0.15:
                 # metric stream: sums of (scaled) likelihood energies, possibly behind a multi-domain chain
                 def lh(env, d):
+                    if r.random() < 0.3:
+                        v = self.varcov(env, d)
+                        if v is not None:
+                            return v
                     n = r.choice([1, 2, 3])
                     t = dict(t="gauss", data=self.vec(n), icov=self.vec(n, 0.25, 2), a=self.single(n, env, d))
                     return dict(t="scale", c=r.choice([0.5, 2.0, 3.0]), a=t) if r.random() < 0.25 else t
@@ -696,7 +803,7 @@ class Gen:
             if not all(_ok_all(v) for v in out.values()):
                 continue
             return dict(indom={k: len(v) for k, v in env.items()}, x={k: fl(v) for k, v in env.items()}, expr=strip(t),
-                        wm=wm, space=r.choice(["U", "U", "R"]))
+                        wm=wm, space=self.space)
         raise RuntimeError("generator exhausted")
 
 
@@ -747,6 +854,24 @@ def lin_arith(b, t, base, rng=None):
         if t["f"] == "exp" and t["a"]["t"] == "mul" and t["a"]["b"]["t"] == "ptw" and t["a"]["b"]["f"] == "log":
             return rec(t["a"]["b"]["a"]) ** rec(t["a"]["a"])        # __pow__ with a Linearization exponent
         return la.ptw(t["f"], *t["p"])
+    if k == "bil":
+        from nifty.cl.operators.simple_linear_operators import DomainChangerAndReshaper
+        m, na, nb, T, oshape = bil_info(t)
+        sa, sb = [tuple(x) for x in t["shapes"]]
+        la, lb = rec(t["a"]), rec(t["b"])
+        if t["ss"] == "i,j->ij":
+            r = la.outer(lb)                                          # Linearization.outer
+            return DomainChangerAndReshaper(r.target, b.sp(m))(r)
+        da = ift.DomainTuple.make(tuple(ift.UnstructuredDomain(n) for n in sa))
+        db = ift.DomainTuple.make(tuple(ift.UnstructuredDomain(n) for n in sb))
+        A = ift.FieldAdapter(da, "e0").adjoint(DomainChangerAndReshaper(la.target, da)(la))
+        B = ift.FieldAdapter(db, "e1").adjoint(DomainChangerAndReshaper(lb.target, db)(lb))
+        mle = ift.MultiLinearEinsum(ift.MultiDomain.make({"e0": da, "e1": db}), t["ss"], key_order=("e0", "e1"))
+        r = mle(A + B)
+        return r if len(oshape) == 0 else DomainChangerAndReshaper(r.target, b.sp(m))(r)
+    if k == "varcov":
+        la, lb = rec(t["a"]), rec(t["b"])
+        return 0.5 * ((la * (la * lb)).sum() - lb.ptw("log").sum())
     if k == "lin":
         m = np.array(t["rows"], dtype=np.float64).reshape(t["m"], t["n"])
         L = (ift.MatrixProductOperator(b.sp(t["n"]), m) if t["m"] == t["n"] else dense_op(ift, b.sp(t["n"]), b.sp(t["m"]), m))
